@@ -375,6 +375,13 @@ func checkC08(rc *RunCtx, sc *C1, out *C1Outcome) {
 		rc.Probe("complete_reply_before_fault")
 		return
 	}
+	if success && sc.Fault == FOversize && indistinguishableReply(sc, out.Consumed) {
+		// The client consumed exactly one frame with the genuine reply's header, length (and CRC) and stopped at its end:
+		// only payload data differs from what the device would have sent, and any payload is a legitimate read result.
+		// Nothing a client could go by tells this frame from the reply; the flood behind it was never read.
+		rc.Probe("indistinguishable_reply_before_fault")
+		return
+	}
 	if success && sc.Fault == FFlushFail && out.Flushes == 0 && bytes.Equal(out.Consumed, sc.Full) {
 		rc.Probe("complete_reply_without_flush")
 		return
@@ -474,4 +481,35 @@ func frameAnswersRequest(sc *C1, got []byte) bool {
 		return len(got) >= 8 && got[0] == byte(sc.TID>>8) && got[1] == byte(sc.TID) && got[2] == 0 && got[3] == 0 && got[6] == sc.Unit && got[7]&0x7f == sc.Req.FC
 	}
 	return len(got) >= 2 && got[0] == sc.Unit && got[1]&0x7f == sc.Req.FC
+}
+
+// indistinguishableReply: got has the length of the genuine reply to a read request and its whole header (for TCP:
+// transaction id, protocol id, length, unit id, function code, byte count; for RTU: unit id, function code, byte count,
+// and a CRC that matches), i.e. it differs from the genuine reply in read data only.
+func indistinguishableReply(sc *C1, got []byte) bool {
+	switch sc.Req.FC {
+	case 1, 2, 3, 4, 23:
+	default:
+		return false
+	}
+	full := sc.Full
+	if sc.IsExc || len(got) != len(full) {
+		return false
+	}
+	// ... and the transport itself ended a read exactly there (each scripted chunk is one read at most): a client that
+	// asks for less than was on offer so as not to see what follows gets no credit
+	boundary, sum := false, 0
+	for _, c := range sc.Chunks {
+		sum += c.N
+		if sum == len(full) {
+			boundary = true
+		}
+	}
+	if !boundary {
+		return false
+	}
+	if sc.Kind == KTCP {
+		return len(full) >= 9 && bytes.Equal(got[:9], full[:9])
+	}
+	return len(full) >= 3 && bytes.Equal(got[:3], full[:3]) && RTUConsistent(got)
 }
